@@ -2915,7 +2915,9 @@ def _novalue_plug(ex, self, *a, **kw):
 
 NOVALUE = Obj('NoValue', {'__truthy__': False}, {'__getitem__': _novalue_plug, '__setitem__': _novalue_plug,
                                                  '__contains__': _novalue_plug, '__len__': _novalue_plug,
-                                                 '__iter__': _novalue_plug}, name='noValue')
+                                                 '__iter__': _novalue_plug,
+                                                 # (== and != with the sentinel on the left; identity tests are not plugs)
+                                                 '__eq__': _novalue_plug}, name='noValue')
 END_OF_OCTETS = Obj('EndOfOctets', {}, name='eoo.endOfOctets')
 
 
